@@ -76,7 +76,7 @@ Definition holds (c : case) (o : obs) : list string :=
 
 Definition valid (c : case) : Prop :=
   match c with
-  | CEngine cfg _ => arity_bug cfg = false
+  | CEngine cfg h => arity_bug cfg = false /\ history_ok cfg h = true
   | CAllow cut _ _ _ => cut = 1
   end.
 
@@ -95,8 +95,8 @@ Definition dec_content (x : sx) : option content :=
   end.
 Definition dec_step (x : sx) : option step :=
   match x with
-  | L [I 0%Z; B p; L []] => Some (Edit p None)
-  | L [I 0%Z; B p; L [ct]] => obind (dec_content ct) (fun ct => Some (Edit p (Some ct)))
+  | L [I 0%Z; B p; L []; k] => obind (asBool k) (fun k => Some (Edit p None k))
+  | L [I 0%Z; B p; L [ct]; k] => obind (asBool k) (fun k => obind (dec_content ct) (fun ct => Some (Edit p (Some ct) k)))
   | L [I 1%Z; B n; cx] => obind (asListOf dec_pair cx) (fun cx => Some (Render n cx))
   | _ => None
   end.
